@@ -1,4 +1,5 @@
 import Driver.HsShared
+import Mtv.Session.Start
 /-
   Line-protocol driver of property C06: the client machine against `ServerSpec` (`exchange`), with the
   executable SHA-1 / AES-256 / modular exponentiation plugged in.
@@ -6,6 +7,11 @@ import Driver.HsShared
            <dh_prime> <time> <spad16> <minimal> <fps>
   <fps>: `-`, or a comma-separated list of the further fingerprints the server offers, in which `*` stands
   for that of its own key (no `*`: its own comes last).
+    c06.seq <tag> <keyobj> <k> { <store> <the 18 tokens of a c06.hs after its tag> } x k
+  several exchanges of one process. The model has no state that outlives an exchange and no notion of the
+  object the caller keeps its key in: each exchange is answered on its own. <store> is what the session
+  storage's `Load` returns to `NewMTProto` (`Mtv.Session.startClient`): no client at all when it fails, a blank
+  client that runs the key exchange for both ways of saying "nothing stored".
 -/
 namespace Driver.C06
 open Mtv Mtv.Handshake Driver Driver.Hs
@@ -19,7 +25,7 @@ def fpsAround? (s : String) : Option (List Nat × List Nat) :=
   | some b, some a => some (b, a)
   | _, _ => none
 
-def handle : List String → String
+def handleHs : List String → String
   | ["c06.hs", _tag, nonce, nn, b, _ps, pad, n, e, d, sn, p, q, g, a, dhp, t, spad, mn, xfp] =>
     match parseBytes? nonce, parseBytes? nn, parseBytes? b, parseBytes? pad, hexNat? n, e.toNat?, hexNat? d with
     | some nonce, some nn, some b, some pad, some n, some e, some d =>
@@ -37,5 +43,35 @@ def handle : List String → String
       | _, _, _, _, _, _, _, _, _ => "bad-op"
     | _, _, _, _, _, _, _ => "bad-op"
   | _ => "bad-op"
+
+/-- what both sides print when `NewMTProto` returned an error: nothing was sent, held or stored -/
+def noClientLine : String :=
+  "res=err:new frames=- encframes=0 key=- salt=0 enc=false svc=false stored=- srv=refused skey=- ssalt=0 shash=-"
+
+def chunks (n : Nat) (xs : List String) : Nat → List (List String)
+  | 0 => []
+  | fuel + 1 => if xs.isEmpty then [] else xs.take n :: chunks n (xs.drop n) fuel
+
+/-- one exchange of a sequence: `<store>` and the 18 tokens -/
+def handleStep : List String → String
+  | store :: rest =>
+    match Mtv.Session.loadedOfMode? store with
+    | none => "bad-op"
+    | some r =>
+      match Mtv.Session.startClient r [] with
+      | .ok c => if c.runsKeyExchange then handleHs ("c06.hs" :: "x" :: rest) else "bad-op"
+      | .err _ => if (handleHs ("c06.hs" :: "x" :: rest)) = "bad-op" then "bad-op" else noClientLine
+      | .panic _ => "bad-op"
+  | [] => "bad-op"
+
+def handle : List String → String
+  | "c06.seq" :: _tag :: keyobj :: k :: rest =>
+    match k.toNat? with
+    | some k =>
+      if keyobj ∉ ["fresh", "slot", "setn"] ∨ k = 0 ∨ rest.length ≠ 19 * k then "bad-op" else
+      let outs := (chunks 19 rest k).map handleStep
+      if outs.contains "bad-op" then "bad-op" else " | ".intercalate outs
+    | none => "bad-op"
+  | ts => handleHs ts
 
 end Driver.C06
